@@ -14,6 +14,7 @@ import (
 	"github.com/tdewolff/minify/v2/html"
 	"github.com/tdewolff/minify/v2/svg"
 	"github.com/tdewolff/parse/v2"
+	pcss "github.com/tdewolff/parse/v2/css"
 
 	"verif/sim"
 )
@@ -44,6 +45,8 @@ type c11Slot struct {
 	End     int
 	Via     string // "" direct; "datauri"; nested host media type (e.g. image/svg+xml)
 	Attr    bool
+	Params  map[string]string // parameters of the type attribute that the minifier must receive
+	Quoting bool              // CSS url(): the output must re-lex as one URL token carrying the payload's minification
 }
 
 type c11Host struct {
@@ -79,6 +82,15 @@ func buildHost(tape *sim.Tape, bad bool) *c11Host {
 		return []byte(p[tape.Draw(len(p))])
 	}
 	add := func(prefix string, s c11Slot, suffix string) {
+		if h.MT == "text/html" && !s.Attr && strings.HasPrefix(prefix, "<s") {
+			// script/style elements also occur inside other elements, e.g. preformatted text
+			switch tape.Draw(5) {
+			case 1:
+				prefix, suffix = "<pre>\n"+prefix, strings.TrimSuffix(suffix, "\n")+"</pre>\n"
+			case 2:
+				prefix, suffix = "<div><p>x</p>"+prefix, strings.TrimSuffix(suffix, "\n")+"</div>\n"
+			}
+		}
 		doc.WriteString(prefix)
 		s.Start = doc.Len()
 		doc.Write(s.Payload)
@@ -112,6 +124,19 @@ func buildHost(tape *sim.Tape, bad bool) *c11Host {
 		n := 1 + tape.Draw(2)
 		for i := 0; i < n; i++ {
 			pl := pick("image/svg+xml")
+			if tape.Draw(3) == 0 {
+				// unquoted in the source (base64 needs no quotes); the re-encoded payload has
+				// parentheses and a quote, so the output URL must be quoted again
+				pl = []byte("<svg xmlns=\"http://www.w3.org/2000/svg\">  <g transform=\"translate(4,4)\">  <path d=\"M 1 1 L 2 2\"/> </g> <text>it's</text> </svg>")
+				doc.WriteString(fmt.Sprintf(".c%d { background : url(", i))
+				s := c11Slot{MT: "image/svg+xml", Payload: pl, Ctx: "css url(data:) unquoted", Via: "datauri", Attr: true, Quoting: true}
+				s.Start = doc.Len()
+				doc.WriteString("data:image/svg+xml;base64," + base64.StdEncoding.EncodeToString(pl))
+				s.End = doc.Len()
+				doc.WriteString(") ; }\n")
+				h.Slots = append(h.Slots, s)
+				continue
+			}
 			enc, mt := encodeDataURI(tape, "image/svg+xml", pl)
 			doc.WriteString(fmt.Sprintf(".c%d { background : url(\"", i))
 			s := c11Slot{MT: mt, Payload: pl, Ctx: "css url(data:)", Via: "datauri", Attr: true}
@@ -155,6 +180,12 @@ func buildHost(tape *sim.Tape, bad bool) *c11Host {
 			}
 			add("<script type=\"application/ld+json\">", c11Slot{MT: "application/ld+json", Payload: pl, Ctx: "<script type=ld+json>"}, "</script>\n")
 		case 3:
+			if tape.Draw(3) == 0 {
+				// parameters in the type attribute reach the minifier as a map
+				add("<script type=\"text/template; a=b; c=d\">", c11Slot{MT: "text/template", Payload: pick("text/template"), Ctx: "<script type=text/template; a=b; c=d>",
+					Params: map[string]string{"a": "b", "c": "d"}}, "</script>\n")
+				break
+			}
 			add("<script type=\"text/template\">", c11Slot{MT: "text/template", Payload: pick("text/template"), Ctx: "<script type=text/template>"}, "</script>\n")
 		case 4:
 			add([]string{"<style>", "<style type=\"text/css\">", "<style media=\"screen\">"}[tape.Draw(3)],
@@ -397,7 +428,7 @@ func c11Case(env *Env, tape *sim.Tape) *CaseOut {
 		mode := modes[s.MT]
 		site := s.Ctx + ":" + modeNames[mode]
 		out.stat("ctx_"+s.Ctx+"_"+modeNames[mode], 1)
-		wantParams := map[string]string(nil)
+		wantParams := s.Params
 		if s.Inline {
 			wantParams = map[string]string{"inline": "1"}
 		}
@@ -465,6 +496,37 @@ func c11Case(env *Env, tape *sim.Tape) *CaseOut {
 			}
 			out.stat("probe_absent_minifier", 1)
 		case mReal:
+			if s.Quoting && hostErr == nil {
+				// "correctly re-escaped for the host syntax": the CSS output must lex into URL
+				// tokens, and one of them must carry exactly the standalone minification
+				var sw bytes.Buffer
+				if err := realM.MinifyMimetype([]byte("image/svg+xml"), &sw, bytes.NewReader(s.Payload), nil); err == nil {
+					found, badURL := false, false
+					l := pcss.NewLexer(parse.NewInputBytes(append([]byte(nil), outer...)))
+					for {
+						tt, data := l.Next()
+						if tt == pcss.ErrorToken {
+							break
+						}
+						if tt == pcss.BadURLToken {
+							badURL = true
+						}
+						if tt == pcss.URLToken && len(data) > 5 {
+							u := bytes.TrimSpace(data[4 : len(data)-1])
+							if len(u) > 1 && (u[0] == '"' || u[0] == '\'') {
+								u = u[1 : len(u)-1]
+							}
+							if _, dec, err := parse.DataURI(append([]byte(nil), u...)); err == nil && bytes.Equal(dec, sw.Bytes()) {
+								found = true
+							}
+						}
+					}
+					out.stat("probe_css_url_relexed", 1)
+					if badURL || !found {
+						return fail("host-escaping", site, fmt.Sprintf("the data: URL in the CSS output does not lex as a URL token that decodes to the SVG minifier's output %q (bad-url token seen: %v)", sw.Bytes(), badURL))
+					}
+				}
+			}
 			if bad || s.Attr || s.Via != "" {
 				break
 			}
